@@ -142,6 +142,9 @@ def check_stream(P, R):
     loop = loops[0]
     counter = T.counter_of_while(loop)
     okc = counter == count
+    if counter is None and not T.weak_loop_bound(loop):
+        R.undecided('C17.c', f, loop.test, f'while {src(loop.test)}', f'the bound of the streaming loop is not in a form with a recogniser (expected `{count} > 0`)')
+        return
     R.ob('C17.c', f, loop.test, okc, text=f'while {src(loop.test)}', detail='' if okc else
          f'the loop is not conditioned on `{count} > 0`', why='without the bound the iterator streams past the requested slice')
     reads = [c for c in walk_shallow(f.node) if isinstance(c, ast.Call) and call_attr(c) == 'read'
@@ -250,7 +253,7 @@ def check_static_file(P, R):
     R.require(cr, 'static_file sets no Content-Range')
     for st in cr:
         sn = g.node_of_stmt(st)[0]
-        v = st.value
+        v = T.expand(f, st.value, sn, keep=(off, end, clen_name))
         ok, det = False, 'Content-Range is not an f-string of offset, end-1, length'
         if isinstance(v, ast.JoinedStr):
             vals = [x.value for x in v.values if isinstance(x, ast.FormattedValue)]
@@ -277,7 +280,7 @@ def check_static_file(P, R):
     for st in cls:
         sn = g.node_of_stmt(st)[0]
         ok = any(isinstance(x, ast.BinOp) and isinstance(x.op, ast.Sub) and isinstance(x.left, ast.Name) and x.left.id == end
-                 and isinstance(x.right, ast.Name) and x.right.id == off for x in ast.walk(st.value)) \
+                 and isinstance(x.right, ast.Name) and x.right.id == off for x in ast.walk(T.expand(f, st.value, sn, keep=(off, end)))) \
             and all(d.stmt is un for d in rd.at(sn, off) + rd.at(sn, end))
         R.ob('C17.a', f, st, ok, detail='' if ok else f'Content-Length of the 206 response is not {end} - {off}')
     # iterator args
@@ -285,7 +288,7 @@ def check_static_file(P, R):
     R.require(its, 'static_file does not call _file_iter_range')
     for c in its:
         sn = g.node_of_stmt(c)[0]
-        a = c.args
+        a = [a_ if i_ == 0 else T.expand(f, a_, sn, keep=(off, end)) for i_, a_ in enumerate(c.args)]
         ok = len(a) >= 3 and isinstance(a[1], ast.Name) and a[1].id == off and isinstance(a[2], ast.BinOp) \
             and isinstance(a[2].op, ast.Sub) and src(a[2].left) == end and src(a[2].right) == off \
             and all(d.stmt is un for d in rd.at(sn, off) + rd.at(sn, end))
@@ -347,6 +350,7 @@ def check_static_file(P, R):
                 okf = vals_ok and guard_ok
                 R.ob('C17.f', f, c0, okf, detail='' if okf else (why or 'the comparison is not guarded by `is not None`'),
                      why='an empty / unparsable If-Modified-Since would raise TypeError -> 500')
+                other = T.expand(f, other, tn)
                 whole = any(isinstance(x, ast.Call) and dotted(x.func) in ('int', 'math.floor') for x in ast.walk(other)) \
                     or any(isinstance(x, ast.BinOp) and isinstance(x.op, ast.FloorDiv) for x in ast.walk(other))
                 mt = any(isinstance(x, ast.Attribute) and x.attr == 'st_mtime' for x in ast.walk(other))
@@ -368,10 +372,15 @@ def check_static_file(P, R):
         elif cp and cp[1] is ast.NotEq and isinstance(h.orelse, ast.Constant) and not h.orelse.value:
             ok = True
     if not heads:
-        # statement form
-        for n in g.nodes:
-            if n.kind == 'test' and any(isinstance(x, ast.Constant) and x.value == 'HEAD' for x in ast.walk(n.ast)):
-                ok = all(not g.edge_dominates(n, 'true', g.node_of_stmt(s)[0]) for s in sinks) and bool(sinks)
+        # statement form: wherever the file is opened, `<method> == 'HEAD'` is known to be false (directly or through a flag)
+        def not_head(node_):
+            for (e_, holds_, _) in T.guard_atoms(f, node_):
+                cp_ = compare_parts(e_)
+                if cp_ and any(is_const(x_, 'HEAD') for x_ in (cp_[0], cp_[2])):
+                    if (cp_[1] is ast.Eq and not holds_) or (cp_[1] is ast.NotEq and holds_):
+                        return True
+            return False
+        ok = bool(sinks) and all(not_head(g.node_of_stmt(s_)[0]) for s_ in sinks)
     R.ob('C17.e', f, heads[0] if heads else f.node, ok, text='HEAD -> empty body', detail='' if ok else
          'HEAD requests are given the file body')
 
